@@ -23,6 +23,7 @@ in reference [2]_.
 
 '''
 
+import numbers
 import numpy as np
 from scipy import stats, optimize
 
@@ -91,7 +92,7 @@ class NatafTransformation:
         except np.linalg.LinAlgError:
             raise ValueError( "corrMat should be positive definite" )
 
-        if isinstance( randomSeed, int ):
+        if isinstance( randomSeed, numbers.Integral ):
             np.random.seed( randomSeed )
         
         self.distObjs = distObjs
